@@ -14,6 +14,7 @@
 # that is tagged from its destination, installed into every standard directory, directories below them and look-alike
 # siblings (bin-extra, libexec, share/locale-archive ...), with every single documented tag selected; the expected
 # selection comes from the tag list of Installing.md (c11model.documented_tags).
+# Family L: install_subdir() trees that hold a symlink to a directory x follow_symlinks {unset, true, false}.
 import hashlib, itertools, json, os, re, shutil, stat, subprocess, sys, time
 from collections import deque
 from verif.core import Check, pmap, run_main, scratch_root, REPO, VERIF
@@ -853,6 +854,13 @@ class Runner:
                             if T.get(rel, ('',))[0] == 'link' and resolve_alias(T, rel) not in T]
                     if dang:
                         k += ':dangling-symlink-at-destination'
+                # classifier: a rule installs a tree that holds a symlink to a directory
+                dl = sorted({e.dirlink for e, _ in self.sel if e.dirlink})
+                if dl:
+                    how = 'is-a-directory-error' if 'IsADirectoryError' in r.out else \
+                        'refuses-existing-directory' if 'but a directory of that name already exists' in r.out else 'other'
+                    k += ':subdir-symlink-to-directory:%s:%s:%s' % ('+'.join(dl), how,
+                         'over-earlier-install' if any(w.entry_rel(e) in T for e, _ in self.sel if e.dirlink) else 'fresh')
                 self.viol(k, 'command exited %d: %s' % (r.rc, r.out[-400:]), path)
             return None
         # -- confinement: nothing outside the DESTDIR tree changes except the install log ----------------------
@@ -1417,6 +1425,13 @@ def jobs_for(ck):
             jobs.append(mkjob('A-%d' % idx, 'A', rules, M.UMASKS[c], (idx + pi) % 2, M.DESTDIRS[d], 'flag' if (idx + pi) % 2 else 'env', init,
                               [run_spec(None, None, ('abort', None))], with_sub=(pi == 0), sub_style=M.STYLES[(a + 1) % 3]))
             idx += 1
+    # family L: install_subdir() trees that hold a symlink to a DIRECTORY x follow_symlinks {unset, true, false}, linear history
+    idx = 0
+    for li, rid in enumerate(M.EXTRA_BUILDERS):
+        rows = OA9 if ck.thorough else [OA9[(li * 3 + k * 4 + seed) % 9] for k in range(3)]
+        for row in rows:
+            jobs.append(row_job('L', [rid], row, idx, 'linear'))
+            idx += 1
     # family G: the --tags clause for items WITHOUT install_tag, whose tag follows from the destination directory.  One project
     # per kind of rule that is tagged this way x directory layout; the project holds one rule per destination directory of
     # c11model.guess_bases x GUESS_MIDS (x file extension); it is installed with no --tags and with every single documented tag.
@@ -1518,7 +1533,11 @@ def main():
         nr = len(j['rules'])
         if nr in rule_sets and j['family'] in ('S', 'P', 'T'):
             rule_sets[nr].add(tuple(r[0] for r in j['rules']))
-        for key, text, rep in res['viol']:
+        viol = res['viol']
+        if j['family'] == 'G':
+            # what `meson install --tags` did (the clause itself) before what the install plan says about the same tags
+            viol = [v for v in viol if not v[0].startswith('C11:plan:')] + [v for v in viol if v[0].startswith('C11:plan:')]
+        for key, text, rep in viol:
             is_new = key not in keys_seen
             keys_seen.add(key)
             fresh = ck.violation(key, '%s [%s]: %s' % (j['id'], ' + '.join('%s/%s/%s' % tuple(r) for r in j['rules']), text), rep)
@@ -1574,6 +1593,8 @@ def main():
     ck.require(not full or all(tot[k] > 3 for k in ('faults_dst_is_dir', 'faults_dst_is_file', 'faults_parent_is_file', 'faults_src_gone')),
                'a kind of aborting situation is missing')
     ck.require(not full or tot['plan_entries'] > 50, 'install plan never compared')
+    ck.part('symlinked_directories', rule_variants=sorted(M.EXTRA_BUILDERS), **fam.get('L', {}))
+    ck.require(not full or fam.get('L', {}).get('transitions', 0) >= 2 * len(M.EXTRA_BUILDERS), 'install_subdir trees with a symlink to a directory were not installed')
     if ck.thorough and full:
         ck.require(tot['strace_runs'] > 10 and tot['strace_mutations'] > 100, 'strace slice did not observe mutations')
     ck.assume('the reference install model (lib/verif/c11model.py) is my transcription of Installing.md, the install_* reference pages, '
@@ -1607,7 +1628,8 @@ def main():
                    'from its destination (install_data, install_subdir, install_emptydir, install_symlink, configure_file, custom_target with one / a '
                    'list of install_dir) WITHOUT install_tag x 2 directory layouts x every destination directory of {standard directories, look-alike '
                    'siblings, parents, namesakes elsewhere, absolute spellings inside and outside the prefix} x {itself, sub-directory, installed-tests, '
-                   'systemtap and look-alikes of these} x file extensions, installed with no --tags and with each single documented tag. states = '
+                   'systemtap and look-alikes of these} x file extensions, installed with no --tags and with each single documented tag; install_subdir trees holding a symlink to a directory x '
+                   'follow_symlinks {unset, true, false} through the linear history. states = '
                    'distinct DESTDIR trees per run, transitions = install/uninstall commands executed, every one compared with the model'
                    % (len(M.RULE_IDS),
                       'style x mode x umask x prefix x DESTDIR kind = 162 configurations' if ck.thorough else 'the 9 rows of a pairwise-covering orthogonal array over name style, install_mode, install_umask, DESTDIR kind; prefix / initial tree / DESTDIR mechanism alternate with the index',
